@@ -30,6 +30,51 @@ enum Op {
     Remove(Vec<(u32, u32)>, bool),
 }
 
+/// Compact replayable text: `b a b v;...|I a b v|R s a b v,...|X s a b,...`
+fn encode(base: &[(u32, u32, u32)], base_sorted: bool, ops: &[Op]) -> String {
+    let mut s = format!("{}", if base_sorted { 1 } else { 0 });
+    for (a, b, v) in base {
+        s.push_str(&format!(" {} {} {}", a, b, v));
+    }
+    for op in ops {
+        match op {
+            Op::Insert(a, b, v) => s.push_str(&format!("|I {} {} {}", a, b, v)),
+            Op::InsertRanges(ts, sorted) => {
+                s.push_str(&format!("|R {}", if *sorted { 1 } else { 0 }));
+                for (a, b, v) in ts {
+                    s.push_str(&format!(" {} {} {}", a, b, v));
+                }
+            }
+            Op::Remove(rs, sorted) => {
+                s.push_str(&format!("|X {}", if *sorted { 1 } else { 0 }));
+                for (a, b) in rs {
+                    s.push_str(&format!(" {} {}", a, b));
+                }
+            }
+        }
+    }
+    s
+}
+
+fn decode(text: &str) -> (Vec<(u32, u32, u32)>, bool, Vec<Op>) {
+    let mut parts = text.split('|');
+    let head: Vec<u32> = parts.next().unwrap().split_whitespace().map(|x| x.parse().unwrap()).collect();
+    let base_sorted = head[0] == 1;
+    let base: Vec<(u32, u32, u32)> = head[1..].chunks(3).map(|c| (c[0], c[1], c[2])).collect();
+    let mut ops = vec![];
+    for p in parts {
+        let mut it = p.split_whitespace();
+        let kind = it.next().unwrap();
+        let nums: Vec<u32> = it.map(|x| x.parse().unwrap()).collect();
+        match kind {
+            "I" => ops.push(Op::Insert(nums[0], nums[1], nums[2])),
+            "R" => ops.push(Op::InsertRanges(nums[1..].chunks(3).map(|c| (c[0], c[1], c[2])).collect(), nums[0] == 1)),
+            _ => ops.push(Op::Remove(nums[1..].chunks(2).map(|c| (c[0], c[1])).collect(), nums[0] == 1)),
+        }
+    }
+    (base, base_sorted, ops)
+}
+
 fn show_ops(base: &[(u32, u32, u32)], ops: &[Op]) -> String {
     format!("base={:?} ops={:?}", base, ops)
 }
@@ -205,7 +250,8 @@ impl Mon {
                         .with("definition", J::s(&show_ops(base, ops)))
                         .with("base", J::Arr(base.iter().map(|t| J::Arr(vec![J::Int(t.0 as i64), J::Int(t.1 as i64), J::Int(t.2 as i64)])).collect()))
                         .with("base_sorted_ctor", J::Bool(base_sorted))
-                        .with("ops", J::s(&format!("{:?}", ops))),
+                        .with("ops", J::s(&format!("{:?}", ops)))
+                        .with("rangemap_replay", J::s(&encode(base, base_sorted, ops))),
                 );
             }
         }
@@ -271,6 +317,34 @@ fn main() {
         classes: Default::default(),
         guard_age: 0,
     };
+    if let Ok(text) = std::env::var("VP_RM_REPLAY") {
+        let (base, base_sorted, ops) = decode(&text);
+        let mut probes: Vec<u32> = vec![];
+        let mut pts: Vec<u32> = base.iter().flat_map(|t| [t.0, t.1]).collect();
+        for op in &ops {
+            match op {
+                Op::Insert(a, b, _) => pts.extend([*a, *b]),
+                Op::InsertRanges(ts, _) => pts.extend(ts.iter().flat_map(|t| [t.0, t.1])),
+                Op::Remove(rs, _) => pts.extend(rs.iter().flat_map(|t| [t.0, t.1])),
+            }
+        }
+        for p in pts {
+            for d in [-1i64, 0, 1] {
+                let v = p as i64 + d;
+                if (0..=0x10FFFF).contains(&v) {
+                    probes.push(v as u32);
+                }
+            }
+        }
+        probes.sort();
+        probes.dedup();
+        mon.run(&base, base_sorted, &ops, &probes, "replay");
+        for v in &mon.violations {
+            println!("{}", J::obj().with("t", J::s("V")).with("v", v.clone()).to_string());
+        }
+        println!("{}", J::obj().with("t", J::s("S")).with("engine", J::s("rangemap_mon")).with("operations", J::Int(mon.ops as i64)).with("nontrivial", J::Int(1)).with("universe", J::Int(0)).with("violations", J::Int(mon.viol_count as i64)).with("samples", J::Arr(vec![])).to_string());
+        return;
+    }
     let probes: Vec<u32> = (0..n + 1).collect();
     let mut nt_count: u64 = 0;
     // ---- exhaustive over the small universe
